@@ -443,6 +443,8 @@ fn transport_case(class: &str, pos: &str, sub: &str, k: usize, transport: &str) 
                                                          map("{\"0\":[\"variables.f.99999999999999999999\"]}"), file("0")])),
                 "map_index_neg" => (mp_ct(), mp_body(&[op(b"{\"query\":\"mutation($f: [Upload!]!) { uploads(files: $f) }\",\"variables\":{\"f\":[null]}}"),
                                                         map("{\"0\":[\"variables.f.-1\"]}"), file("0")])),
+                "map_index_oob" => (mp_ct(), mp_body(&[op(b"{\"query\":\"mutation($f: [Upload!]!) { uploads(files: $f) }\",\"variables\":{\"f\":[null]}}"),
+                                                        map("{\"0\":[\"variables.f.5\"]}"), file("0")])),
                 "map_many_paths" => (mp_ct(), mp_body(&[op(&ops), map(&format!("{{\"0\":[{}\"variables.f\"]}}", rep("\"variables.f\",", k.max(1)))), file("0")])),
                 "file_without_map" => (mp_ct(), mp_body(&[op(&ops), map("{}"), file("0")])),
                 "file_before_operations" => (mp_ct(), mp_body(&[file("0"), map(m1), op(&ops)])),
